@@ -7,8 +7,8 @@ use std::io::Cursor;
 use zipora::string::bmi2::{to_lowercase_ascii_bmi2, to_uppercase_ascii_bmi2};
 use zipora::string::utils::{line_utils, unicode_utils};
 use zipora::string::{
-    find_word_boundaries, is_word_boundary, is_word_char, word_at_position, word_count, words, LineProcessor, LineProcessorConfig, LineSplitter,
-    UnicodeProcessor, WordIterator,
+    find_word_boundaries, is_whitespace, is_word_boundary, is_word_char, word_at_position, word_count, words, Bmi2StringProcessor, LineProcessor,
+    LineProcessorConfig, LineSplitter, UnicodeProcessor, WordIterator,
 };
 use zverif::{Outcome, Registry, Tier};
 
@@ -37,7 +37,15 @@ fn run_words(c: &Txt) -> R {
     ensure!(word_count(t) == want.len(), "words", "word_count", "word_count({:?}) = {} want {}", c.s, word_count(t), want.len());
     for b in 0..=255u8 {
         ensure!(is_word_char(b) == ref_is_word(b), "words", "is_word_char", "is_word_char({b:#x}) = {}", is_word_char(b));
+        // (audit) documented: "space, tab, newline, carriage return, form feed, vertical tab"
+        ensure!(is_whitespace(b) == matches!(b, b' ' | b'\t' | b'\n' | b'\r' | 0x0C | 0x0B), "words", "is_whitespace", "is_whitespace({b:#x}) = {}", is_whitespace(b));
     }
+    // (audit) the iterator driven by hand: after the last word it keeps returning None
+    let mut wi = words(t);
+    for w in &want {
+        ensure!(wi.next() == Some(*w), "words", "WordIterator/next", "next() out of step on {:?}", c.s);
+    }
+    ensure!(wi.next().is_none() && wi.next().is_none(), "words", "WordIterator/fused", "next() after the last word of {:?} is Some", c.s);
     // boundaries: start, end, and every position between a word and a non-word character
     let boundary = |p: usize| -> bool { n == 0 || p == 0 || p >= n || ref_is_word(t[p - 1]) != ref_is_word(t[p]) };
     for p in 0..=n + 1 {
@@ -93,6 +101,14 @@ fn ref_lines(text: &str, cfg: &LineProcessorConfig) -> Vec<String> {
 }
 
 fn cfg_of(v: u8) -> LineProcessorConfig {
+    // (audit) v 24..=27: LineProcessor::new (default configuration) and the three presets
+    match v {
+        24 => return LineProcessorConfig::default(),
+        25 => return LineProcessorConfig::performance_optimized(),
+        26 => return LineProcessorConfig::memory_optimized(),
+        27 => return LineProcessorConfig::secure(),
+        _ => {}
+    }
     LineProcessorConfig {
         buffer_size: [1usize, 3, 64 * 1024][(v / 8) as usize % 3],
         max_line_length: 1 << 20,
@@ -107,7 +123,11 @@ fn run_lines(c: &Txt) -> R {
     let cfg = cfg_of(c.v);
     let flags = format!("preserve={},skip_empty={},trim={}", cfg.preserve_line_endings, cfg.skip_empty_lines, cfg.trim_whitespace);
     let want = ref_lines(&c.s, &cfg);
-    let mk = || LineProcessor::with_config(Cursor::new(c.s.clone().into_bytes()), cfg.clone());
+    let mk = || if c.v == 24 { LineProcessor::new(Cursor::new(c.s.clone().into_bytes())) } else { LineProcessor::with_config(Cursor::new(c.s.clone().into_bytes()), cfg.clone()) };
+    if c.v >= 24 {
+        let st = mk().get_statistics();
+        ensure!(st.lines_processed == 0 && st.bytes_processed == 0 && st.buffer_size == cfg.buffer_size && st.max_line_length == cfg.max_line_length, "lines", "statistics/fresh", "statistics of a fresh processor: {:?}", st);
+    }
     // process_lines
     let mut got = Vec::new();
     let mut p = mk();
@@ -195,9 +215,9 @@ fn run_splitter(c: &Txt) -> R {
     let d = delims[(c.v % 5) as usize];
     let strat = c.v / 5;
     let mut sp = match strat {
-        0 => LineSplitter::new(),
+        0 | 4 => LineSplitter::new(),
         1 => LineSplitter::new().with_optimized_strategy(),
-        2 => LineSplitter::default().with_delimiter(d.to_string()),
+        2 | 5 => LineSplitter::default().with_delimiter(d.to_string()),
         _ => LineSplitter::new().with_optimized_strategy(),
     };
     let want: Vec<String> = c.s.split(d).map(|s| s.to_string()).collect();
@@ -205,8 +225,13 @@ fn run_splitter(c: &Txt) -> R {
     if strat == 3 {
         let _ = sp.split("x,y\tz w", d);
     }
+    if strat >= 4 {
+        // (audit) a line with more fields than the next one, then the same line twice
+        let _ = sp.split("x,y\tz w,ab, q\u{e9}", d);
+        let _ = sp.split(&c.s, d);
+    }
     let got = sp.split(&c.s, d).to_vec();
-    let sname = ["simple", "optimized", "custom", "optimized-reused"][strat as usize];
+    let sname = ["simple", "optimized", "custom", "optimized-reused", "simple-reused", "custom-reused"][strat as usize];
     let trailing = c.s.is_empty() || c.s.ends_with(d);
     let class = format!("{}/{}", sname.trim_end_matches("-reused"), if trailing { "empty_last_field" } else { "non_empty_last_field" });
     ensure!(got == want, "split_fields", class, "LineSplitter[{sname}].split({:?}, {d:?}) = {:?}, line.split(delimiter) gives {:?}", c.s, got, want);
@@ -227,6 +252,12 @@ fn run_case(c: &Txt) -> R {
     ensure!(folded == lower, "case", "UnicodeProcessor/case_fold", "process({s:?}) = {folded:?} want {lower:?}");
     let folded = must(UnicodeProcessor::new().with_case_folding(true).with_normalization(true).process(s), "case", "process_err")?;
     ensure!(folded == lower, "case", "UnicodeProcessor/case_fold+normalize", "process({s:?}) = {folded:?} want {lower:?}");
+    // (audit) one processor object for several strings
+    let mut up = UnicodeProcessor::new().with_normalization(true).with_case_folding(true);
+    let first = must(up.process("\u{c9}QqZ\u{df} longer than the next input"), "case", "process_err")?;
+    let second = must(up.process(s), "case", "process_err")?;
+    let third = must(up.process(s), "case", "process_err")?;
+    ensure!(first == "\u{e9}qqz\u{df} longer than the next input" && second == lower && third == lower, "case", "UnicodeProcessor/reused", "a reused processor gives {second:?} / {third:?} for {s:?}, want {lower:?}");
     let same = must(UnicodeProcessor::default().process(s), "case", "process_err")?;
     ensure!(&same == s, "case", "UnicodeProcessor/identity", "process without options changed the string");
     // ASCII: only A-Z / a-z move, every other byte (incl. multi-byte sequences) is untouched
@@ -237,6 +268,11 @@ fn run_case(c: &Txt) -> R {
     ensure!(g.as_bytes() == &al[..], "case", format!("to_lowercase_ascii/{lc}"), "to_lowercase_ascii_bmi2({s:?}) = {g:?}");
     let g = to_uppercase_ascii_bmi2(s);
     ensure!(g.as_bytes() == &au[..], "case", format!("to_uppercase_ascii/{lc}"), "to_uppercase_ascii_bmi2({s:?}) = {g:?}");
+    // (audit) the same through an own processor object, used twice
+    let p = Bmi2StringProcessor::new();
+    for _ in 0..2 {
+        ensure!(p.to_lowercase_ascii_bmi2(s).as_bytes() == &al[..] && p.to_uppercase_ascii_bmi2(s).as_bytes() == &au[..], "case", format!("Bmi2StringProcessor/{lc}"), "Bmi2StringProcessor case conversion of {s:?} differs");
+    }
     Ok(if s.is_empty() { Outcome::trivial("empty") } else { Outcome::pass(lc) })
 }
 
@@ -252,10 +288,312 @@ fn gen_txt(alpha: &'static [char], max_q: usize, max_t: usize, variants: u8) -> 
     }
 }
 
+
+// =============================================================================================
+// Coverage audit: one LineProcessor used for several calls, the line-length limit, lines around the buffer size,
+// every ASCII byte at every position of the 8-byte case-conversion blocks
+
+#[derive(Serialize, Deserialize, Hash, Clone, Debug)]
+pub struct LineHist {
+    s: String,
+    /// flag bits as in `cfg_of` (buffer of 1 byte): 1 preserve_line_endings, 2 skip_empty_lines, 4 trim_whitespace
+    v: u8,
+    /// 0 process_lines stopping at the 1st delivered line; 1 ... at the 2nd; 2 process_lines to the end; 3 count_lines;
+    /// 4 process_batches(2) to the end; 5 process_batches(2) stopping at the 1st batch; 6 process_batches(1) stopping at the
+    /// 2nd batch; 7 find_lines(contains 'a'); 8 split_lines_by(" ") stopping at the 2nd field
+    ops: Vec<u8>,
+}
+const LH_OPS: [&str; 9] = ["process_lines(stop@1)", "process_lines(stop@2)", "process_lines", "count_lines", "process_batches(2)", "process_batches(2,stop@1)", "process_batches(1,stop@2)", "find_lines", "split_lines_by(stop@2)"];
+
+/// what one physical line is delivered as (None: skipped)
+fn deliver(raw: &str, cfg: &LineProcessorConfig) -> Option<String> {
+    let mut l = raw.to_string();
+    if !cfg.preserve_line_endings && l.ends_with('\n') {
+        l.pop();
+        if l.ends_with('\r') {
+            l.pop();
+        }
+    }
+    let l = if cfg.trim_whitespace { l.trim().to_string() } else { l };
+    if cfg.skip_empty_lines && l.is_empty() {
+        None
+    } else {
+        Some(l)
+    }
+}
+
+fn run_line_hist(c: &LineHist) -> R {
+    let cfg = cfg_of(c.v);
+    let phys: Vec<&str> = c.s.split_inclusive('\n').collect();
+    let mut at = 0usize; // model: number of physical lines consumed
+    let mut p = LineProcessor::with_config(Cursor::new(c.s.clone().into_bytes()), cfg.clone());
+    let mut trace = String::new();
+    for (step, &op) in c.ops.iter().enumerate() {
+        let name = LH_OPS[op as usize];
+        trace.push_str(name);
+        trace.push(' ');
+        let pos = if step == 0 { "fresh" } else { "continued" };
+        match op {
+            0 | 1 | 2 => {
+                let stop_at = if op == 2 { usize::MAX } else { op as usize + 1 };
+                // model
+                let mut want: Vec<String> = Vec::new();
+                while at < phys.len() {
+                    let d = deliver(phys[at], &cfg);
+                    at += 1;
+                    if let Some(l) = d {
+                        want.push(l);
+                        if want.len() == stop_at {
+                            break;
+                        }
+                    }
+                }
+                let mut got: Vec<String> = Vec::new();
+                let n = must(p.process_lines(|l| {
+                    got.push(l.to_string());
+                    Ok(got.len() != stop_at)
+                }), "history", "process_lines_err")?;
+                ensure!(got == want, "history", format!("process_lines/{pos}"), "[{trace}] on {:?}: handler saw {:?}, want {:?}", c.s, got, want);
+                if want.len() < stop_at {
+                    ensure!(n == want.len(), "history", format!("process_lines_count/{pos}"), "[{trace}] on {:?}: returned {n} for {} delivered lines", c.s, want.len());
+                }
+            }
+            3 => {
+                let mut want = 0;
+                while at < phys.len() {
+                    if deliver(phys[at], &cfg).is_some() {
+                        want += 1;
+                    }
+                    at += 1;
+                }
+                let n = must(p.count_lines(), "history", "count_lines_err")?;
+                ensure!(n == want, "history", format!("count_lines/{pos}"), "[{trace}] on {:?}: count_lines = {n}, {want} lines are left", c.s);
+            }
+            4 | 5 | 6 => {
+                let (bs, stop_at) = match op {
+                    4 => (2usize, usize::MAX),
+                    5 => (2, 1),
+                    _ => (1, 2),
+                };
+                // model: whole batches as they fill up; the handler's `false` ends the call; a last partial batch is delivered at the end
+                let mut want: Vec<Vec<String>> = Vec::new();
+                let mut batch: Vec<String> = Vec::new();
+                let mut stopped = false;
+                while at < phys.len() {
+                    let d = deliver(phys[at], &cfg);
+                    at += 1;
+                    if let Some(l) = d {
+                        batch.push(l);
+                        if batch.len() == bs {
+                            want.push(std::mem::take(&mut batch));
+                            if want.len() == stop_at {
+                                stopped = true;
+                                break;
+                            }
+                        }
+                    }
+                }
+                if !stopped && !batch.is_empty() {
+                    want.push(batch);
+                }
+                let mut got: Vec<Vec<String>> = Vec::new();
+                let n = must(p.process_batches(bs, |b| {
+                    got.push(b.to_vec());
+                    Ok(got.len() != stop_at)
+                }), "history", "process_batches_err")?;
+                if got != want {
+                    let again = stopped && got.len() > want.len() && got[..want.len()] == want[..];
+                    let class = if again { "process_batches/handler_called_again_after_it_returned_false".to_string() } else { format!("process_batches/{pos}") };
+                    ensure!(false, "history", class, "[{trace}] on {:?}: the handler was called with {:?}, want {:?}", c.s, got, want);
+                }
+                if !stopped && want.len() < stop_at {
+                    ensure!(n == want.iter().map(|b| b.len()).sum::<usize>(), "history", format!("process_batches_count/{pos}"), "[{trace}] on {:?}: returned {n}", c.s);
+                }
+            }
+            7 => {
+                let mut want: Vec<(usize, String)> = Vec::new();
+                let mut k = 0;
+                while at < phys.len() {
+                    if let Some(l) = deliver(phys[at], &cfg) {
+                        k += 1;
+                        if l.contains('a') {
+                            want.push((k, l));
+                        }
+                    }
+                    at += 1;
+                }
+                let got = must(p.find_lines(|l| l.contains('a')), "history", "find_lines_err")?;
+                ensure!(got == want, "history", format!("find_lines/{pos}"), "[{trace}] on {:?}: find_lines = {:?}, want {:?}", c.s, got, want);
+            }
+            _ => {
+                let mut want: Vec<(String, usize, usize)> = Vec::new();
+                let mut k = 0;
+                'outer: while at < phys.len() {
+                    let d = deliver(phys[at], &cfg);
+                    at += 1;
+                    if let Some(l) = d {
+                        k += 1;
+                        for (j, fld) in l.split(' ').enumerate() {
+                            want.push((fld.to_string(), k, j));
+                            if want.len() == 2 {
+                                break 'outer;
+                            }
+                        }
+                    }
+                }
+                let mut got: Vec<(String, usize, usize)> = Vec::new();
+                must(p.split_lines_by(" ", |fld, ln, fnum| {
+                    got.push((fld.to_string(), ln, fnum));
+                    Ok(got.len() != 2)
+                }), "history", "split_lines_by_err")?;
+                ensure!(got == want, "history", format!("split_lines_by/{pos}"), "[{trace}] on {:?}: fields {:?}, want {:?}", c.s, got, want);
+            }
+        }
+        let st = p.get_statistics();
+        let bytes: usize = phys[..at].iter().map(|l| l.len()).sum();
+        ensure!(st.lines_processed == at && st.bytes_processed == bytes, "history", format!("statistics/{pos}"), "[{trace}] on {:?}: statistics say {} lines / {} bytes, consumed {at} lines / {bytes} bytes", c.s, st.lines_processed, st.bytes_processed);
+    }
+    // whatever is left is delivered by a final process_lines
+    let want: Vec<String> = phys[at..].iter().filter_map(|r| deliver(r, &cfg)).collect();
+    let mut got = Vec::new();
+    must(p.process_lines(|l| {
+        got.push(l.to_string());
+        Ok(true)
+    }), "history", "process_lines_err")?;
+    ensure!(got == want, "history", "rest", "[{trace}] on {:?}: the rest is {:?}, want {:?}", c.s, got, want);
+    Ok(if c.ops.is_empty() { Outcome::trivial("no-ops") } else { Outcome::pass(&format!("{}ops/{}", c.ops.len(), if at >= phys.len() { "consumed_all" } else { "stopped_inside" })) })
+}
+
+/// max_line_length: a line whose content (without its ending) is longer must be refused with Err, the lines before it are
+/// delivered; a line that fits with its ending is delivered.  (Content fits but content+ending does not: not specified,
+/// such texts are skipped.)
+fn run_line_limit(c: &Txt) -> R {
+    let max = if c.v & 1 == 0 { 1usize } else { 3 };
+    let cfg = LineProcessorConfig { buffer_size: 2, max_line_length: max, preserve_line_endings: c.v & 2 != 0, skip_empty_lines: false, trim_whitespace: false, use_secure_memory: false };
+    let mut want: Vec<String> = Vec::new();
+    let mut want_err = false;
+    for raw in c.s.split_inclusive('\n') {
+        let content = raw.strip_suffix('\n').map(|x| x.strip_suffix('\r').unwrap_or(x)).unwrap_or(raw);
+        if raw.len() <= max {
+            want.push(deliver(raw, &cfg).unwrap());
+        } else if content.len() > max {
+            want_err = true;
+            break;
+        } else {
+            return Ok(Outcome::skip("a line whose content fits max_line_length but not together with its line ending"));
+        }
+    }
+    let mut got = Vec::new();
+    let r = LineProcessor::with_config(Cursor::new(c.s.clone().into_bytes()), cfg.clone()).process_lines(|l| {
+        got.push(l.to_string());
+        Ok(true)
+    });
+    ensure!(r.is_err() == want_err, "lines", if want_err { "max_line_length/too_long_accepted" } else { "max_line_length/fitting_refused" }, "process_lines({:?}) with max_line_length {max}: {:?}", c.s, r.as_ref().map_err(|e| e.to_string()));
+    ensure!(got == want, "lines", "max_line_length/lines_before", "process_lines({:?}) with max_line_length {max} delivered {:?}, want {:?}", c.s, got, want);
+    let r = LineProcessor::with_config(Cursor::new(c.s.clone().into_bytes()), cfg).count_lines();
+    ensure!(r.is_err() == want_err && (want_err || r.as_ref().ok() == Some(&want.len())), "lines", "max_line_length/count_lines", "count_lines({:?}) with max_line_length {max}: {:?}", c.s, r.map_err(|e| e.to_string()));
+    Ok(Outcome::pass(if want_err { "refused" } else { "all_fit" }))
+}
+
+#[derive(Serialize, Deserialize, Hash, Clone, Debug)]
+pub struct LineGrid {
+    /// 0 = buffer_size 16, 1 = buffer_size 64, 2 = memory_optimized preset (16 KiB), 3 = default (64 KiB, LineProcessor::new)
+    cfg: u8,
+    /// length of the long line = buffer size + delta - 3
+    delta: usize,
+    /// 0 = long line first, 1 = after an empty line, 2 = after the line " x"
+    lead: u8,
+    /// 0 = LF, 1 = no final LF, 2 = CRLF
+    style: u8,
+    /// flag bits: 1 preserve, 2 skip empty, 4 trim (not for the presets)
+    flags: u8,
+}
+
+fn run_line_grid(c: &LineGrid) -> R {
+    let mut cfg = match c.cfg {
+        0 | 1 => {
+            let mut k = cfg_of(c.flags & 7);
+            k.buffer_size = if c.cfg == 0 { 16 } else { 64 };
+            k
+        }
+        2 => LineProcessorConfig::memory_optimized(),
+        _ => LineProcessorConfig::default(),
+    };
+    if c.cfg >= 2 {
+        cfg.preserve_line_endings = c.flags & 1 != 0;
+    }
+    let long = cfg.buffer_size + c.delta - 3;
+    let mut lines: Vec<String> = Vec::new();
+    match c.lead {
+        1 => lines.push(String::new()),
+        2 => lines.push(" x".to_string()),
+        _ => {}
+    }
+    lines.push("a".repeat(long));
+    lines.extend(["b ", "", "cc"].iter().map(|s| s.to_string()));
+    let mut text = String::new();
+    for (i, l) in lines.iter().enumerate() {
+        text.push_str(l);
+        match c.style {
+            1 if i + 1 == lines.len() => {}
+            2 => text.push_str("\r\n"),
+            _ => text.push('\n'),
+        }
+    }
+    let want = ref_lines(&text, &cfg);
+    let mk = || LineProcessor::with_config(Cursor::new(text.clone().into_bytes()), cfg.clone());
+    let what = format!("buffer {} long line {} lead {} style {} flags {}", cfg.buffer_size, long, c.lead, c.style, c.flags);
+    let lens = |v: &[String]| v.iter().map(|l| l.len()).collect::<Vec<_>>();
+    let mut got = Vec::new();
+    let mut p = mk();
+    let n = must(p.process_lines(|l| {
+        got.push(l.to_string());
+        Ok(true)
+    }), "lines", "process_lines_err")?;
+    ensure!(got == want && n == want.len(), "lines", "grid/process_lines", "{what}: delivered line lengths {:?}, want {:?}", lens(&got), lens(&want));
+    let st = p.get_statistics();
+    ensure!(st.bytes_processed == text.len() && st.lines_processed == text.split_inclusive('\n').count(), "lines", "grid/statistics", "{what}: statistics {:?}", st);
+    ensure!(must(mk().count_lines(), "lines", "count_lines_err")? == want.len(), "count_lines", "grid", "{what}: count_lines differs");
+    let mut all = Vec::new();
+    must(mk().process_batches(2, |b| {
+        all.extend_from_slice(b);
+        Ok(true)
+    }), "lines", "process_batches_err")?;
+    ensure!(all == want, "lines", "grid/process_batches", "{what}: batches deliver line lengths {:?}, want {:?}", lens(&all), lens(&want));
+    if c.cfg == 3 && c.flags == 0 {
+        let mut got = Vec::new();
+        must(LineProcessor::new(Cursor::new(text.clone().into_bytes())).process_lines(|l| {
+            got.push(l.to_string());
+            Ok(true)
+        }), "lines", "process_lines_err")?;
+        ensure!(got == want, "lines", "grid/new", "{what}: LineProcessor::new delivers line lengths {:?}", lens(&got));
+    }
+    Ok(Outcome::pass(&format!("cfg{}/long{}buffer", c.cfg, if long < cfg.buffer_size { "<" } else if long == cfg.buffer_size { "=" } else { ">" })))
+}
+
+/// every 7-bit byte and some multi-byte characters at every position of a 17-byte string (two 8-byte blocks + remainder)
+fn gen_case_grid(_t: Tier, f: &mut dyn FnMut(Txt) -> bool) {
+    let mut chars: Vec<char> = (0u8..128).map(|b| b as char).collect();
+    chars.extend(['\u{e9}', '\u{c9}', '\u{df}', '\u{141}', '\u{20ac}', '\u{ff21}', '\u{10400}', '\u{10FFFF}']);
+    for ch in chars {
+        for off in 0..=16usize {
+            let mut t: String = "Qq".chars().cycle().take(off).collect();
+            t.push(ch);
+            while t.len() < 17 {
+                t.push(if t.len() % 2 == 0 { 'q' } else { 'Q' });
+            }
+            if !f(Txt { s: t, v: 2 }) {
+                return;
+            }
+        }
+    }
+}
+
+static LIMIT_ALPHA: [char; 3] = ['a', '\n', '\r'];
 static LINE_ALPHA: [char; 5] = ['a', ' ', '\n', '\r', '\t'];
-static WORD_ALPHA: [char; 6] = ['a', 'Z', '_', '-', ' ', 'é'];
-static SPLIT_ALPHA: [char; 5] = ['a', 'b', ',', ' ', '\t'];
-static CASE_ALPHA: [char; 9] = ['a', 'Z', '@', '[', '`', '{', 'é', 'É', 'ß'];
+static WORD_ALPHA: [char; 7] = ['a', 'Z', '_', '-', ' ', 'é', '0'];
+static SPLIT_ALPHA: [char; 6] = ['a', 'b', ',', ' ', '\t', 'é'];
+static CASE_ALPHA: [char; 11] = ['a', 'Z', '@', '[', '`', '{', 'é', 'É', 'ß', 'A', 'z'];
 
 pub fn register(reg: &mut Registry) {
     reg.add(fam(
@@ -266,17 +604,23 @@ pub fn register(reg: &mut Registry) {
     ));
     reg.add(fam(
         "words[word-alphabet]",
-        "all strings of length <=5 (thorough <=6) over {'a','Z','_','-',' ','é'} (a two-byte character): same clauses",
+        "all strings of length <=5 (thorough <=6) over {'a','Z','_','-',' ','é','0'} (a two-byte character, a digit): same clauses, is_whitespace on all 256 bytes, the iterator stays exhausted",
         gen_txt(&WORD_ALPHA, 5, 6, 1),
         run_words,
     ));
     reg.add(fam(
         "LineProcessor",
-        "all strings of length <=6 (thorough <=7) over {'a',' ','\\n','\\r','\\t'} x 8 flag combinations (preserve_line_endings, skip_empty_lines, trim_whitespace) x BufReader capacity {1,3,65536} (quick: capacity 1 and 65536 only for length <=4): process_lines (+early stop, statistics), count_lines, process_batches(1|2|5), split_lines_by, find_lines, utils::{extract_unique_lines, filter_by_length, count_word_frequencies, analyze_text}",
+        "all strings of length <=6 (thorough <=7) over {'a',' ','\\n','\\r','\\t'} x 8 flag combinations (preserve_line_endings, skip_empty_lines, trim_whitespace) x BufReader capacity {1,3,65536} (quick: capacity 65536 only for length <=4) + LineProcessor::new and the presets performance_optimized / memory_optimized (length <=5) / secure (length <=3): process_lines (+early stop, statistics), count_lines, process_batches(1|2|5), split_lines_by, find_lines, utils::{extract_unique_lines, filter_by_length, count_word_frequencies, analyze_text}",
         |tier, f: &mut dyn FnMut(Txt) -> bool| {
             for s in strings_over(&LINE_ALPHA, tier.pick(6, 7)) {
-                for v in 0..24u8 {
-                    if tier == Tier::Quick && v >= 8 && s.chars().count() > 4 {
+                for v in 0..28u8 {
+                    // quick: the 64 KiB buffer only for length <= 4 (buffers of 1 and 3 bytes for every length: a line that ends
+                    // exactly at the end of a buffer, CR and LF in different buffers); the secure preset (a memory pool per
+                    // processor) only for length <= 3
+                    if tier == Tier::Quick && (16..24).contains(&v) && s.chars().count() > 4 {
+                        continue;
+                    }
+                    if v >= 24 && s.chars().count() > if v == 27 { 3 } else { 5 } {
                         continue;
                     }
                     if !f(Txt { s: s.clone(), v }) {
@@ -289,13 +633,13 @@ pub fn register(reg: &mut Registry) {
     ));
     reg.add(fam(
         "LineSplitter",
-        "all strings of length <=5 (thorough <=6) over {'a','b',',',' ','\\t'} x delimiters {\",\",\"\\t\",\" \",\"ab\",\", \"} x strategies {simple, optimized, custom, optimized on a reused splitter}: fields equal line.split(delimiter)",
-        gen_txt(&SPLIT_ALPHA, 5, 6, 20),
+        "all strings of length <=5 (thorough <=6) over {'a','b',',',' ','\\t','é'} x delimiters {\",\",\"\\t\",\" \",\"ab\",\", \"} x strategies {simple, optimized, custom, and each of the three on a splitter that was used for a longer line (and the same line) before}: fields equal line.split(delimiter)",
+        gen_txt(&SPLIT_ALPHA, 5, 6, 30),
         run_splitter,
     ));
     reg.add(fam(
         "case",
-        "all strings of length <=4 (thorough <=5) over {'a','Z','@','[','`','{','é','É','ß'} and the same strings embedded at offset 0..=8 of 'Qq' padding to total length {8,9,16,17} (BMI2 path needs >= 8 bytes): to_lowercase/to_uppercase_unicode, UnicodeProcessor case folding, to_lowercase/to_uppercase_ascii_bmi2 against character-wise / byte-wise definitions",
+        "all strings of length <=4 (thorough <=5) over {'a','Z','@','[','`','{','é','É','ß','A','z'} (both ends of both letter ranges and their neighbours) and the same strings embedded at offset 0..=8 of 'Qq' padding to total length {8,9,16,17} (BMI2 path needs >= 8 bytes): to_lowercase/to_uppercase_unicode, UnicodeProcessor case folding, to_lowercase/to_uppercase_ascii_bmi2 (global functions and an own Bmi2StringProcessor used twice) against character-wise / byte-wise definitions; one UnicodeProcessor reused for several strings",
         |tier, f: &mut dyn FnMut(Txt) -> bool| {
             let small = strings_over(&CASE_ALPHA, tier.pick(4, 5));
             for s in &small {
@@ -319,5 +663,55 @@ pub fn register(reg: &mut Registry) {
             }
         },
         run_case,
+    ));
+    reg.add(fam(
+        "case/grid",
+        "each of the 128 seven-bit characters and 8 multi-byte characters (2, 3 and 4 bytes; with and without case mappings) at every offset 0..=16 of a 17-byte string of 'Q'/'q' padding (two 8-byte blocks of the BMI2 path and a remainder): same clauses as case",
+        gen_case_grid,
+        run_case,
+    ));
+    reg.add(fam(
+        "LineProcessor/history",
+        "ONE processor per history (buffer of 1 byte): all strings of length <=4 (thorough <=5) over {'a',' ','\\n','\\r','\\t'} x all 8 flag sets (preserve_line_endings, skip_empty_lines, trim_whitespace) x every sequence of <=2 operations (thorough: also 3 operations for strings of length <=3) over {process_lines stopping at the 1st / 2nd delivered line, process_lines, count_lines, process_batches(2), process_batches(2) stopping at the 1st batch, process_batches(1) stopping at the 2nd batch, find_lines, split_lines_by stopping at the 2nd field} against a cursor model over the physical lines: what each call delivers, no handler call after the handler returned false, get_statistics after every call, and a final process_lines delivers exactly the rest",
+        |tier, f: &mut dyn FnMut(LineHist) -> bool| {
+            let ops: Vec<u8> = (0..9).collect();
+            let flag_sets: Vec<u8> = (0..8).collect();
+            for s in strings_over(&LINE_ALPHA, tier.pick(4, 5)) {
+                let depth = if tier == Tier::Thorough && s.chars().count() <= 3 { 3 } else { 2 };
+                for &v in &flag_sets {
+                    if !zverif::util::all_strings(&ops, depth, &mut |o| f(LineHist { s: s.clone(), v, ops: o.to_vec() })) {
+                        return;
+                    }
+                }
+            }
+        },
+        run_line_hist,
+    ));
+    reg.add(fam(
+        "LineProcessor/limits",
+        "all strings of length <=6 (thorough <=8) over {'a','\\n','\\r'} x max_line_length {1,3} x preserve_line_endings {off,on} (buffer of 2 bytes): a line longer than max_line_length is refused with Err after the lines before it were delivered, lines that fit are delivered (process_lines, count_lines)",
+        gen_txt(&LIMIT_ALPHA, 6, 8, 4),
+        run_line_limit,
+    ));
+    reg.add(fam(
+        "LineProcessor/grid",
+        "a line of buffer_size-3 ..= buffer_size+3 bytes followed by the lines 'b ', '', 'cc' x buffer {16, 64 (8 flag sets), memory_optimized preset 16 KiB, default 64 KiB via with_config and LineProcessor::new (preserve off/on)} x {first line, after an empty line, after ' x'} x {LF, no final LF, CRLF}: process_lines, statistics, count_lines, process_batches(2)",
+        |_t, f: &mut dyn FnMut(LineGrid) -> bool| {
+            for cfg in 0..4u8 {
+                for delta in 0..=6usize {
+                    for lead in 0..3u8 {
+                        for style in 0..3u8 {
+                            let flags: Vec<u8> = if cfg < 2 { (0..8).collect() } else { vec![0, 1] };
+                            for flags in flags {
+                                if !f(LineGrid { cfg, delta, lead, style, flags }) {
+                                    return;
+                                }
+                            }
+                        }
+                    }
+                }
+            }
+        },
+        run_line_grid,
     ));
 }
